@@ -23,15 +23,40 @@ import (
 )
 
 type counts struct {
-	Sync, Go, Send, Recv, Close, Make, Select, TimeNow int
+	Sync, Go, Send, Recv, Close, Make, Select, TimeNow, MapRange int
+}
+
+// mapRangePkgs lists the packages in which `for range <map>` is handed to the explorer.
+var mapRangePkgs = map[string]bool{"ociauth": true}
+
+// collectMapNames finds field and variable names declared with a map type (syntactic).
+func collectMapNames(f *ast.File, out map[string]bool) {
+	ast.Inspect(f, func(n ast.Node) bool {
+		switch x := n.(type) {
+		case *ast.Field:
+			if _, ok := x.Type.(*ast.MapType); ok {
+				for _, id := range x.Names {
+					out[id.Name] = true
+				}
+			}
+		case *ast.ValueSpec:
+			if _, ok := x.Type.(*ast.MapType); ok {
+				for _, id := range x.Names {
+					out[id.Name] = true
+				}
+			}
+		}
+		return true
+	})
 }
 
 type rewriter struct {
-	fset    *token.FileSet
-	n       int
-	c       *counts
-	used    bool // vsync referenced
-	useTime bool
+	fset     *token.FileSet
+	n        int
+	c        *counts
+	used     bool // vsync referenced
+	useTime  bool
+	mapNames map[string]bool // struct fields / variables declared with a map type in the package
 }
 
 func vs(name string) ast.Expr {
@@ -170,6 +195,45 @@ func (r *rewriter) stmt(s ast.Stmt) ast.Stmt {
 				return x
 			}
 		}
+	case *ast.RangeStmt:
+		name := ""
+		switch rx := x.X.(type) {
+		case *ast.SelectorExpr:
+			name = rx.Sel.Name
+		case *ast.Ident:
+			name = rx.Name
+		}
+		if r.mapNames != nil && r.mapNames[name] && x.Tok == token.DEFINE {
+			r.c.MapRange++
+			r.used = true
+			r.n++
+			it := ast.NewIdent(fmt.Sprintf("__mi%d", r.n))
+			var lhs, rhs []ast.Expr
+			if x.Key != nil {
+				lhs = append(lhs, x.Key)
+				rhs = append(rhs, call(&ast.SelectorExpr{X: ast.NewIdent(it.Name), Sel: ast.NewIdent("Key")}))
+			}
+			if x.Value != nil {
+				lhs = append(lhs, x.Value)
+				rhs = append(rhs, call(&ast.SelectorExpr{X: ast.NewIdent(it.Name), Sel: ast.NewIdent("Val")}))
+			}
+			r.children(x.Body)
+			body := x.Body
+			if len(lhs) > 0 {
+				assign := &ast.AssignStmt{Lhs: lhs, Tok: token.DEFINE, Rhs: rhs}
+				var blank []ast.Expr
+				for range lhs {
+					blank = append(blank, ast.NewIdent("_"))
+				}
+				use := &ast.AssignStmt{Lhs: blank, Tok: token.ASSIGN, Rhs: append([]ast.Expr(nil), lhs...)}
+				body = &ast.BlockStmt{List: append([]ast.Stmt{assign, use}, x.Body.List...)}
+			}
+			return &ast.ForStmt{
+				Init: &ast.AssignStmt{Lhs: []ast.Expr{it}, Tok: token.DEFINE, Rhs: []ast.Expr{call(vs("MapIter"), r.expr(x.X))}},
+				Cond: call(&ast.SelectorExpr{X: ast.NewIdent(it.Name), Sel: ast.NewIdent("Next")}),
+				Body: body,
+			}
+		}
 	case *ast.DeferStmt:
 		if e, ok := r.expr(x.Call).(*ast.CallExpr); ok {
 			x.Call = e
@@ -266,12 +330,12 @@ func (r *rewriter) selectStmt(x *ast.SelectStmt) ast.Stmt {
 	}}
 }
 
-func rewriteFile(fset *token.FileSet, path string, c *counts) ([]byte, bool, error) {
+func rewriteFile(fset *token.FileSet, path string, c *counts, mapNames map[string]bool) ([]byte, bool, error) {
 	f, err := parser.ParseFile(fset, path, nil, parser.ParseComments)
 	if err != nil {
 		return nil, false, err
 	}
-	r := &rewriter{fset: fset, c: c}
+	r := &rewriter{fset: fset, c: c, mapNames: mapNames}
 	changed := false
 	for _, imp := range f.Imports {
 		if imp.Path.Value == `"sync"` {
@@ -346,13 +410,24 @@ func main() {
 		}
 		c := &counts{}
 		report[pkg] = c
+		var mapNames map[string]bool
+		if mapRangePkgs[pkg] {
+			mapNames = map[string]bool{}
+			for _, e := range ents {
+				if strings.HasSuffix(e.Name(), ".go") && !strings.HasSuffix(e.Name(), "_test.go") {
+					if pf, err := parser.ParseFile(token.NewFileSet(), filepath.Join(dir, e.Name()), nil, 0); err == nil {
+						collectMapNames(pf, mapNames)
+					}
+				}
+			}
+		}
 		for _, e := range ents {
 			name := e.Name()
 			if !strings.HasSuffix(name, ".go") || strings.HasSuffix(name, "_test.go") {
 				continue
 			}
 			src := filepath.Join(dir, name)
-			data, changed, err := rewriteFile(fset, src, c)
+			data, changed, err := rewriteFile(fset, src, c, mapNames)
 			if err != nil {
 				fmt.Fprintf(os.Stderr, "vrewrite: %s: %v\n", src, err)
 				os.Exit(2)
